@@ -24,7 +24,12 @@ def behaviour_scripts(v, thorough, rng, seed):
     seven = list({json.dumps(x["hist"]) + json.dumps(x["initial"]): x for x in r.printed()}.values())
     if not two or not seven:
         raise lib.ToolError("no behaviour scripts generated")
-    scen = (two if thorough else rng.sample(two, min(len(two), 250))) + seven
+    # a manager without handlers still answers: calls, which_handlers and sync notifications issued while nothing is installed are always taken
+    def asks_an_empty_manager(x):
+        return not x["initial"] and any(o[0] in ("ge_call", "ge_which", "ge_sync_notify") for o in x["hist"])
+    empty = [x for x in two if asks_an_empty_manager(x)]
+    empty = empty if thorough else rng.sample(empty, min(len(empty), 40))
+    scen = (two if thorough else list({json.dumps(x["hist"]) + json.dumps(x["initial"]): x for x in rng.sample(two, min(len(two), 250)) + empty}.values())) + seven
     for i, s in enumerate(scen):
         s["id"] = i
     sp = os.path.join(lib.outdir(PID), "beh_scenarios.ndjson")
@@ -40,6 +45,9 @@ def behaviour_scripts(v, thorough, rng, seed):
             raise lib.ToolError("behaviour runner: " + o["tool_error"])
         v.case("beh " + json.dumps([s["hist"], s["initial"]]))
         case = {"handlers_installed_at_start": s["initial"], "operations": s["hist"]}
+        if o.get("unanswered"):
+            v.violation("a live gen_event manager / gen_server left a call from a live caller without an answer (4.4 s)", {**case, "unanswered": o["unanswered"]})
+            continue
         if o["notes"]:
             v.add_drift("behaviour script could not be followed: " + "; ".join(o["notes"][:2]), case)
             continue
